@@ -8,13 +8,13 @@ namespace ZoektModel.C13
 
 /-- `view` is what the branch-restricted search returned, as (path, content) pairs; `t` is the head tree -/
 def checkView (t : Tree) (view : List (Path × Blob)) : Bool :=
-  t.all (fun e => view.count (e.1, e.2.blob) == 1) &&
-  view.all (fun d => (tget t d.1).map (·.blob) == some d.2)
+  t.all (fun e => !e.2.isFile || view.count (e.1, e.2.blob) == 1) &&
+  view.all (fun d => fblob t d.1 == some d.2)
 
 /-- the same as a proposition about document counts: exactly one document (p, x) when the head has content `x`
     at `p`, none otherwise (absent path, or any other content) -/
 def ViewIsHead (t : Tree) (cnt : Path → Blob → Nat) : Prop :=
-  ∀ p x, cnt p x = if (tget t p).map (·.blob) = some x then 1 else 0
+  ∀ p x, cnt p x = if fblob t p = some x then 1 else 0
 
 /-- trees have distinct paths -/
 def TreeWF (t : Tree) : Prop := (t.map Prod.fst).Nodup
